@@ -282,6 +282,7 @@ func generate() {
 	}
 	accountHistories(thorough, bbsLayer)
 	heldHistories(thorough, bbsLayer)
+	round7Histories(thorough, bbsLayer)
 	// ---- random words ------------------------------------------------------------------------------
 	nrand := 1500
 	if thorough {
@@ -352,6 +353,8 @@ func generate() {
 		"xread LoadHotBoards 2 3 17 0 2 0 0 0", "xread ReadPost 0 3 17 0 2 0 0 0", "xreadb ReadPost 2 1 17 0 2 0 0 0", "xreadc ReadPost 2 3 17 0 2 0 0 0",
 		"nlist LoadBoardDetail 2 17 0 2 0 0 6 61", "nlist LoadBoardDetail 2 17 0 2 0 0 zz 61", "nlist ReadPost 2 17 0 2 0 0 61 61",
 		"nlist LoadBoardDetail 2 17 0 2 0 0 6161616161616161616161616161 61", "nlist LoadBoardDetail 2 17 0 2 0 0 61",
+		"fexp ReadPost 2 25 0 1 0", "fexp ReadPost 3 25 0 1 0 1", "fexp Nope 2 25 0 1 0 1", "fexp ReadPost 2 25 0 1 0 2", "vmulti 25 0", "vmulti 25 0 q", "vmulti 25 0 2 3 2 3 2 3 2 3 2",
+		"vmulti 25 0 x 3", "vmulti 25 2 3", "fexp ReadPost 2 25 0 1 0 1",
 		"recheck 0", "hold 8 LoadHotBoards 2 17 0 2 0 0 0", "hold 0 LoadBoardSummary 2 17 0 2 0 0 0", "hold 0 LoadHotBoards 2 17 0 2 0 0", "recheck x", "stress 10", "stress 0",
 		"hold 0 LoadHotBoards 2 17 0 2 0 0 0", "recheck 0", "recheck 1", "recheck 0 0",
 		"users", "users 1:6162 1:6364", "users 1:6162 2:4142", "users 0:6162", "users 1:61", "users 1:3161", "users 1:61622e", "users 1:6162:63", "users 51:6162",
@@ -640,4 +643,64 @@ func heldHistories(thorough, bbsLayer bool) {
 		}
 	}
 	run.Extra["held_histories"] = nh
+}
+
+// round7Histories: (ptt) the friend list is loaded, the file changes, the cached list ages past its expiry, the caller
+// reads / lists; (bbs) multi-board validity queries with ids that name no board before a forbidden and an allowed board.
+func round7Histories(thorough, bbsLayer bool) {
+	P := func(p ptttype.PERM) uint32 { return uint32(p) }
+	A := func(a ptttype.BrdAttr) uint32 { return uint32(a) }
+	hidden := A(ptttype.BRD_HIDE) | A(ptttype.BRD_POSTMASK)
+	plain := P(ptttype.PERM_BASIC) | P(ptttype.PERM_LOGINOK) | bitHas
+	if !bbsLayer {
+		entries := append(append([]string{}, readEntries...), "LoadGeneralBoards", "LoadBoardsByBids", "LoadBoardDetail", "LoadBoardSummary")
+		k := 0
+		for _, attr := range []uint32{hidden, A(ptttype.BRD_HIDE), hidden | A(ptttype.BRD_OVER18)} {
+			for load := 0; load < 2; load++ {
+				for now := 0; now < 2; now++ {
+					for aged := 0; aged < 2; aged++ {
+						emit("reset")
+						emit(fmt.Sprintf("setb %d %d 0", bidTarget, attr))
+						for i, e := range entries {
+							if !thorough && attr != hidden && i%3 != k%3 {
+								continue
+							}
+							emit(fmt.Sprintf("fexp %s %d %d 0 %d %d %d", e, bidTarget, plain, load, now, aged))
+						}
+						// an ordinary read afterwards (fresh list arranged by the harness)
+						emit(fmt.Sprintf("read ReadPost %d %d 0 %d 0 %d 0", bidTarget, plain, uidReader, now))
+						k++
+					}
+				}
+			}
+		}
+		return
+	}
+	// request shapes: ids that name no board (x stale, m number/name mismatch, c wrong case, z number 0) before / between / after
+	shapes := []string{"2 3", "x 2 3", "m 2 3", "c 2 3", "z 2 3", "x x 2 3", "2 x 3", "3 x 2", "x 3 2", "x 2", "x", "x m c z", "2 3 x", "x 4 5 2 3", "3 2 3", "x 2 2 3", "5 x 4 m 2 c 3"}
+	for _, b := range [][2]uint32{{hidden, 0}, {0, bitLacks}, {A(ptttype.BRD_OVER18), 0}, {0, 0}} {
+		emit("reset")
+		emit(fmt.Sprintf("setb %d %d %d", bidTarget, b[0], b[1]))
+		emit(fmt.Sprintf("setb %d %d %d", bidGroup, b[0]|A(ptttype.BRD_GROUPBOARD), b[1]))
+		for _, ul := range []uint32{plain, plain | P(ptttype.PERM_SYSOP)} {
+			for _, sh := range shapes {
+				emit(fmt.Sprintf("vmulti %d 0 %s", ul, sh))
+			}
+		}
+	}
+	n := 60
+	if thorough {
+		n = 3000
+	}
+	toks := []string{"2", "3", "4", "5", "x", "m", "c", "z"}
+	emit("reset")
+	emit(fmt.Sprintf("setb %d %d 0", bidTarget, hidden))
+	emit(fmt.Sprintf("setb %d %d %d", bidGroup, A(ptttype.BRD_GROUPBOARD), bitLacks))
+	for i := 0; i < n; i++ {
+		var sh []string
+		for j := 0; j < 1+run.R.Intn(7); j++ {
+			sh = append(sh, toks[run.R.Intn(len(toks))])
+		}
+		emit(fmt.Sprintf("vmulti %d %d %s", plain, run.R.Intn(2), strings.Join(sh, " ")))
+	}
 }
